@@ -30,7 +30,7 @@ ASSUMPTIONS = [
     "instruments without the 'SAMP' signature (true legacy) are outside this property's domain",
 ]
 REQUIRED_LABELS = {
-    "quick": ["edit_pf", "edit_mc", "edit_ctl", "edit_opt", "edit_cmid", "edit_pay", "edit_cell", "src_fixture", "src_project", "src_synth", "sampler_edit", "changed", "attr_sweep", "saved_before_edit", "embedded_edit", "duplicates", "edit_inside_one_of_identical_containers"],
+    "quick": ["edit_pf", "edit_mc", "edit_ctl", "edit_opt", "edit_cmid", "edit_pay", "edit_cell", "src_fixture", "src_project", "src_synth", "sampler_edit", "changed", "attr_sweep", "saved_before_edit", "embedded_edit", "duplicates", "edit_inside_one_of_identical_containers", "whole_object_replaced"],
     "thorough": ["edit_pf", "edit_mc", "edit_ctl", "edit_opt", "edit_cmid", "edit_pay", "edit_cell", "edit_patf", "src_fixture", "src_project", "src_synth", "sampler_edit", "metamodule_edit", "embedded_edit", "changed", "fixture_sweep"],
 }
 
@@ -220,6 +220,8 @@ def run_case(ctx, case):
             labels.add("metamodule_edit")
         if "'embedded'" in flat:
             labels.add("embedded_edit")
+        if "_whole'" in flat:
+            labels.add("whole_object_replaced")
     s1 = snapshot.snap(obj)
     data = obj.read()
     back = c05.load(data)
